@@ -91,10 +91,38 @@ let do_op sid (toks : string list) : string =
                       | Panic -> "panic")
   | _ -> "driver-error unknown-op"
 
+(* ManagedState instances; the inner StateDB of instance mid is mirrored under sid 1000+mid for `obs` *)
+let mstates : (int, mstate) Hashtbl.t = Hashtbl.create 8
+let mload mid = let ms = Hashtbl.find mstates mid in { ms with ms_db = with_codes !codes ms.ms_db }
+let mstore mid ms = codes := ms.ms_db.st_codes; Hashtbl.replace mstates mid ms; Hashtbl.replace states (1000 + mid) ms.ms_db
+
+let do_mop mid (toks : string list) : string =
+  let ms = mload mid in
+  match toks with
+  | ["newnonce"; a] -> let (ms', n) = ms_new_nonce h ms (n_of_string a) in mstore mid ms'; "n " ^ nstr n
+  | ["getnonce"; a] -> let (ms', n) = ms_get_nonce h ms (n_of_string a) in mstore mid ms'; "n " ^ nstr n
+  | ["setnonce"; a; n] -> mstore mid (ms_set_nonce h ms (n_of_string a) (n_of_string n)); "ok"
+  | ["removenonce"; a; n] -> mstore mid (ms_remove_nonce h ms (n_of_string a) (n_of_string n)); "ok"
+  | ["has"; a] -> bstr (ms_has ms (n_of_string a))
+  | _ -> "driver-error unknown-mop"
+
+let mobserve mid addrs =
+  let ms = mload mid in
+  String.concat " " (List.map (fun a ->
+    match aget a ms.ms_accts with
+    | Some acc -> Printf.sprintf "M%s:%s/%s" (nstr a) (nstr acc.m_nstart) (String.concat "" (List.map bstr acc.m_nonces))
+    | None -> Printf.sprintf "M%s:-" (nstr a)) addrs)
+
 let handle (toks : string list) : string =
   match toks with
+  | ["manage"; sid; mid] ->
+    (match manage_state (load (int_of_string sid)) with
+     | Ok ms -> mstore (int_of_string mid) ms; "ok"
+     | Panic -> "panic")
+  | "mop" :: mid :: rest -> do_mop (int_of_string mid) rest
+  | ["mobs"; mid; addrs] -> mobserve (int_of_string mid) (ints addrs)
   | ["keccak"; x] -> hex_of_bytes (keccak256 (bytes_of_hex x))
-  | ["reset"] -> Hashtbl.reset states; codes := []; commits := [||]; "ok"
+  | ["reset"] -> Hashtbl.reset states; Hashtbl.reset mstates; codes := []; commits := [||]; "ok"
   | ["new"; sid] -> Hashtbl.replace states (int_of_string sid) (new_state [] !codes); "ok"
   | ["reopen"; sid; k] ->
     let k = int_of_string k in
@@ -105,6 +133,7 @@ let handle (toks : string list) : string =
      | Ok s' -> Hashtbl.replace states (int_of_string dst) s'; "ok"
      | Panic -> "panic")
   | "op" :: sid :: rest -> do_op (int_of_string sid) rest
+  | ["realroot"; sid] -> hex_of_bytes (state_root h (load (int_of_string sid)).st_trie)
   | ["obs"; sid; addrs; slots; thashes; pres] ->
     observe (load (int_of_string sid)) (ints addrs) (ints slots) (ints thashes) (ints pres)
   | _ -> "driver-error unknown-command"
